@@ -181,7 +181,9 @@ pub fn run_c03(ctx: &Ctx, sink: &mut Sink) {
                 depth_toks(&mut rng, &mut toks);
             }
             let depth = rng.chance(2, 5);
-            if depth {
+            // -depth is an option: it is in force for the whole run wherever it stands, also after -prune
+            let depth_last = depth && rng.chance(1, 2);
+            if depth && !depth_last {
                 toks.push((*rng.pick(&["depth", "d"])).into());
             }
             if rng.chance(2, 3) {
@@ -225,11 +227,15 @@ pub fn run_c03(ctx: &Ctx, sink: &mut Sink) {
                     toks.push(v.clone());
                 }
             }
+            if depth_last {
+                toks.push((*rng.pick(&["depth", "d"])).into());
+            }
             let flag = *rng.pick(&["P", "P", "H", "L"]);
             let roots = pick_roots(&mut rng, &sc, false);
             let (req, imp) = run_case(ctx, &sc.dir, flag, &roots, &toks, &mut rng, false);
             let mut tags = vec!["nt"];
             if depth { tags.push("depth"); }
+            if depth_last { tags.push("depth-after-prune"); }
             if toks.iter().any(|t| t == "prune") { tags.push("prune"); }
             if toks.iter().any(|t| t == "sorted") { tags.push("sorted"); }
             if imp.contains("503a") { tags.push("prune-fired"); }
